@@ -192,7 +192,8 @@ def work(pair):
     best = {}        # violation kind -> (rank, args): the execution with the fewest deviations is reported
 
     def run(ch):
-        res = execute(ch, cshape, sshape, p, states)
+        with core.watchdog(20):      # a service call that never returns is a broken run, not a slow one
+            res = execute(ch, cshape, sshape, p, states)
         p.traces += 1
         p.evaluations += 1
         if res is not None:
@@ -215,8 +216,7 @@ def work(pair):
                                  "connect; transmit() the packets; then service the sides in the listed order")))
         return res
 
-    with core.watchdog(1500):
-        st = core.dfs(run, bound=bound)
+    st = core.dfs(run, bound=bound)
     for kind in sorted(best):
         p.violation(*best[kind][1])
     for h in states:
